@@ -97,6 +97,18 @@ PROPS = {
         text="Reader fidelity is decided against a ground truth known by construction; writer fidelity by two decoders, the independent one rejecting mis-nested tags, non-numeric identifiers and region references that precede their definition.",
         note="Trusted: renderer and independent decoder in the harness, rapid.",
         design="5/C02"),
+    "C03": P(
+        "TestC03", "exploration",
+        "read: case = (ground-truth TTML model, rendering); model = xml:lang (5 mapped + en-GB, fr-CA, de, none), title, copyright, ttp:frameRate in {absent,24,25,30,50,60}, ttp:tickRate in {absent,1,1000,90000,1e7}, 0..5 styles whose parent links form a forest (shared parents, children listed before parents), 0..3 regions with optional style, 0..6 cues with optional region/style/inline tts:* subset (24 attributes), 1..3 lines, 1..3 runs (span with optional style+attrs, or anonymous text), each boundary in a generated time-expression syntax (hh:mm:ss, hh:mm:ss.f{1,3}, hh:mm:ss:ff, N[.N]h|m|s|ms, Nf, Nt) whose exact value is computed in math/big; "
+        "rendering = no indentation / 2 / 4 spaces / tab with children of <p> on their own lines or not, CRLF, <br/> between spans, inside a span, as first child, <br></br>, tts: / other / no prefix, xml:id vs id, XML declaration, named vs numeric character references, one or two divs. Plus an exhaustive pass over the time syntaxes (every frame number below the rate for 5 rates, every 1-3 digit fraction in 5 forms). "
+        "write: model converted to the public types, written with indent default/""/tab/2 spaces. Non-trivial = >=1 cue and >=1 feature label; distinct = hash of rendered bytes / model.",
+        ["N1, N3 of DESIGN.md; no white-space-only character data between two spans of a line, anonymous text does not start a source line, no raw newline inside character data; integer frame and tick counts in Nf / Nt",
+         "tolerance for every boundary: |got - exact| < 1 ns",
+         "the independent decoder is a raw encoding/xml token walk (allowed by the property) with its own time evaluator and br/span walker"],
+        shards=(4, 16), technique="model-based property testing with exact rational time semantics (math/big): ground-truth model x rendering -> reader; writer output decoded by the library reader and an independent encoding/xml token walker",
+        text="Time expressions are evaluated exactly by the harness and compared with the reader to < 1 ns; structure (lines, runs, references by identity with the map entries, inheritance links of every child) against ground truth; writer fidelity by two decoders.",
+        note="Trusted: renderer, rational evaluator and token-walk decoder in the harness; encoding/xml as XML parser; rapid.",
+        design="5/C03", exhaustive_note=True),
 }
 
 # Properties deliberately not claimed (reason each); anything else missing from PROPS is work in progress.
